@@ -12,7 +12,7 @@ import (
 
 func init() {
 	register(&propDef{ID: "C14", Run: runC14,
-		Explain:    "Structural necessary conditions of 'decoded headers are re-encoded without loss', decided on SSA/value flow of /repo: (1) format-taint: no network-derived string is the format operand of a fmt call; (2) decoder-errors: inside the header/URI decoders no error result of a sub-decoder or of strconv is discarded; (3) field-coverage: every field a decoder writes into a decoded type is read by that type's printer; (4) no-defaulting-printer: a printer never calls an accessor that substitutes a constant default; (5) delimiter-agreement: every constant separator a decoder strips at the level of a type (Split/Fields separators, tested-and-skipped first byte, exclusive index splits, stripped prefixes) is emitted by the printer of that type; sibling printers (Route vs Record-Route) are compared through the same rule; (6) accessor-keys: named accessors use the RFC 3261 parameter names, getter and setter alike; (7) ordered-lists: decoders only append to their lists and printers walk them with forward range loops; (8) decoder-grammar: a decoder that separates host and port at ':' takes a bracketed IPv6 reference into account (two open findings).",
+		Explain:    "Structural necessary conditions of 'decoded headers are re-encoded without loss', decided on SSA/value flow of /repo: (1) format-taint: no network-derived string is the format operand of a fmt call; (2) decoder-errors: inside the header/URI decoders no error result of a sub-decoder or of strconv is discarded; (3) field-coverage: every field a decoder writes into a decoded type is read by that type's printer; (4) no-defaulting-printer: a printer never calls an accessor that substitutes a constant default; (5) delimiter-agreement: every constant separator a decoder strips at the level of a type (Split/Fields separators, tested-and-skipped first byte, exclusive index splits, stripped prefixes) is emitted by the printer of that type; sibling printers (Route vs Record-Route) are compared through the same rule; (6) accessor-keys: named accessors use the RFC 3261 parameter names, getter and setter alike; (7) ordered-lists: decoders only append to their lists and printers walk them with forward range loops; (8) decoder-grammar: a decoder that separates host and port at ':' takes a bracketed IPv6 reference into account (two open findings); ParseSipURI cuts the user part at the first '@', then the headers at the first '?', then the parameters at the first ';' (shared with C04/C16).",
 		NotDecided: "the round-trip law itself; value-level losses these rules cannot see (';' kept in a bare addr-spec, IPv6 references, user parts containing ';' or '?', a parameter written 'name=' with an empty value)."})
 }
 
@@ -121,6 +121,7 @@ func runC14(c *Ctx) {
 	c14FullPrinter(c)
 	c14NoDefaultingPrinter(c)
 	c14Delimiters(c)
+	c14HostGrammar(c)
 	c14AccessorKeys(c)
 	c14OrderedLists(c)
 	rulePureCapture(c, "pure-capture")
@@ -128,6 +129,9 @@ func runC14(c *Ctx) {
 	ruleTokenSplitting(c, "decoder-errors", "parseViaParam", "ParseCSeq", "parseRequestLine", "parseStatusLine")
 	ruleSplitRemainder(c, "decoder-errors")
 	rulePurePrinters(c, "no-defaulting-printer")
+	// the URI decoder cuts user part, headers and parameters off in the order that gives each component its own text
+	// (shared with C04/C16)
+	c16URISplitOrder(c, "decoder-grammar")
 }
 
 // transformers that change the text they are given
@@ -835,7 +839,6 @@ func c14Delimiters(c *Ctx) {
 		c.undecided(rule, "floor", "-", fmt.Sprintf("only %d stripped separators recognised (expected >= 25): decoder idioms are not understood", n))
 	}
 	c14RequiredSeparators(c)
-	c14HostGrammar(c)
 }
 
 // c14HostGrammar: a host may be an IPv6 reference "[...]" that itself contains ':' (RFC 3261 hostport). A decoder
@@ -1104,6 +1107,53 @@ func isAppendOne(v ssa.Value, ref string) bool {
 	return len(varargs(ap.Call.Args[1])) == 1
 }
 
+// accumulatedList: v is a list built up in a local variable (SSA values joined by phi nodes): every value it can stand
+// for is the empty list or append(<another value of the same family>, one element). appended reports whether some
+// value is such an append.
+func accumulatedList(v ssa.Value) (ok bool, appended bool) {
+	family := map[ssa.Value]bool{}
+	var leaves []ssa.Value
+	var walk func(x ssa.Value, d int)
+	walk = func(x ssa.Value, d int) {
+		x = strip(x)
+		if family[x] || d > 8 {
+			return
+		}
+		family[x] = true
+		if ph, isPhi := x.(*ssa.Phi); isPhi {
+			for _, e := range ph.Edges {
+				walk(e, d+1)
+			}
+			return
+		}
+		leaves = append(leaves, x)
+		if ap, isCall := x.(*ssa.Call); isCall {
+			if b, isB := ap.Call.Value.(*ssa.Builtin); isB && b.Name() == "append" && len(ap.Call.Args) == 2 {
+				walk(ap.Call.Args[0], d+1)
+			}
+		}
+	}
+	walk(v, 0)
+	if len(leaves) == 0 {
+		return false, false
+	}
+	for _, l := range leaves {
+		if isEmptyList(l) {
+			continue
+		}
+		ap, isCall := l.(*ssa.Call)
+		if !isCall {
+			return false, false
+		}
+		b, isB := ap.Call.Value.(*ssa.Builtin)
+		if !isB || b.Name() != "append" || len(ap.Call.Args) != 2 || !family[strip(ap.Call.Args[0])] || len(varargs(ap.Call.Args[1])) != 1 {
+			return false, false
+		}
+		appended = true
+	}
+	return true, appended
+}
+
 func c14OrderedLists(c *Ctx) {
 	w := c.w
 	rule := "ordered-lists"
@@ -1122,6 +1172,10 @@ func c14OrderedLists(c *Ctx) {
 					c.ok(rule, ref+"<-"+w.fname(fn), w.ipos(st), "decoder sizes the list by its source and stores element i at index i for every source element")
 					continue
 				}
+				if okAcc, _ := accumulatedList(st.Val); okAcc {
+					c.ok(rule, ref+"<-"+w.fname(fn), w.ipos(st), "decoder stores a list accumulated by appending one element at a time, in input order")
+					continue
+				}
 				c.check(isAppendOne(st.Val, ref), rule, ref+"<-"+w.fname(fn), w.ipos(st), "decoder appends elements in input order", "decoder stores "+w.termKey(st.Val)+" into "+ref+": elements are not appended one by one in input order")
 			}
 		}
@@ -1130,6 +1184,9 @@ func c14OrderedLists(c *Ctx) {
 		for fn := range dec {
 			for _, st := range w.fieldStores(fn, ref) {
 				if isAppendOne(st.Val, ref) || w.sizedFill(fn, st, ref) {
+					filled = true
+				}
+				if okAcc, app := accumulatedList(st.Val); okAcc && app {
 					filled = true
 				}
 			}
@@ -1285,6 +1342,8 @@ func (w *World) sizedFill(fn *ssa.Function, st *ssa.Store, ref string) bool {
 			}
 			if r, base := loadedField(ia.X); r == ref && strip(base) == obj {
 				sites = append(sites, es)
+			} else if strip(ia.X) == strip(st.Val) {
+				sites = append(sites, es) // the list is filled through a local variable and stored into the field afterwards
 			}
 		})
 		if len(sites) == 0 {
